@@ -366,7 +366,7 @@ pub fn scen_by_name(name: &str) -> Option<&'static ThreadScenDef> {
 thread_local! {
     /// the first scenario-side violation of the current execution (all coroutines of an
     /// execution run on one OS thread)
-    static FIRST_VIOLATION: std::cell::RefCell<Option<(String, String, String)>> = const { std::cell::RefCell::new(None) };
+    static FIRST_VIOLATION: std::cell::RefCell<Option<Vec<(String, String, String)>>> = const { std::cell::RefCell::new(None) };
 }
 
 /// Scenario-side assertion. Panicking inside a simulated thread would unwind through guards
@@ -374,10 +374,15 @@ thread_local! {
 /// recorded and the thread parks forever; the execution then ends in shuttle's deadlock /
 /// step-bound report, which is raised outside every simulated stack.
 pub fn violation(prop: &str, oracle: &str, msg: String) -> ! {
+    violation_multi(&[(prop, oracle)], msg)
+}
+
+/// one observation that is evidence against several properties
+pub fn violation_multi(props: &[(&str, &str)], msg: String) -> ! {
     FIRST_VIOLATION.with(|v| {
         let mut v = v.borrow_mut();
         if v.is_none() {
-            *v = Some((prop.to_string(), oracle.to_string(), msg));
+            *v = Some(props.iter().map(|(p, o)| (p.to_string(), o.to_string(), msg.clone())).collect());
         }
     });
     loop {
@@ -385,14 +390,14 @@ pub fn violation(prop: &str, oracle: &str, msg: String) -> ! {
     }
 }
 
-fn take_violation() -> Option<(String, String, String)> {
+fn take_violation() -> Option<Vec<(String, String, String)>> {
     FIRST_VIOLATION.with(|v| v.borrow_mut().take())
 }
 
-fn classify(def: &ThreadScenDef, msg: &str, step: u64) -> Fail {
-    let mk = |prop: &str, oracle: &str, m: String| Fail { prop: prop.into(), oracle: oracle.into(), msg: m, at_op: step as usize, fatal: true };
-    if let Some((p, o, m)) = take_violation() {
-        return mk(&p, &o, m);
+fn classify(def: &ThreadScenDef, msg: &str, step: u64) -> Vec<Fail> {
+    let mk = |prop: &str, oracle: &str, m: String| vec![Fail { prop: prop.into(), oracle: oracle.into(), msg: m, at_op: step as usize, fatal: true }];
+    if let Some(vs) = take_violation() {
+        return vs.into_iter().map(|(p, o, m)| Fail { prop: p, oracle: o, msg: m, at_op: step as usize, fatal: true }).collect();
     }
     if msg.contains("deadlock!") {
         return mk(def.liveness_prop, "deadlock", format!("no thread is runnable but threads have not finished: a wake-up was lost ({})", msg.lines().next().unwrap_or("")));
@@ -423,7 +428,7 @@ pub struct RunResult {
 }
 
 /// Runs executions until the scheduler stops or one panics. Returns the failure, if any.
-fn drive(def: &'static ThreadScenDef, sched: SeededScheduler, shared: &Arc<Mutex<Shared>>) -> Option<Fail> {
+fn drive(def: &'static ThreadScenDef, sched: SeededScheduler, shared: &Arc<Mutex<Shared>>) -> Option<Vec<Fail>> {
     let sh2 = shared.clone();
     let body = def.body;
     crate::core::QUIET_PANICS.with(|q| q.set(true));
@@ -514,23 +519,25 @@ pub fn run_batch(def: &'static ThreadScenDef, seed: u64, first_run: u64, runs: u
                                 }
                                 a = b;
                             }
-                            Some(f) => {
+                            Some(fs) => {
                                 let run = s.run_index;
                                 out.runs += run + 1 - a;
                                 out.hash_xor ^= s.hash_xor;
                                 out.nontrivial.extend(s.fps.iter().copied());
                                 out.steps += s.steps_total + s.steps;
                                 out.preemptions += s.preemptions;
-                                if f.prop == gate || f.prop == "HARNESS" {
+                                if fs.iter().any(|f| f.prop == gate || f.prop == "HARNESS") {
                                     if out.found.len() < max_found {
-                                        out.found.push(L3Found { run_index: run, cfg: s.cfg.clone(), trace: s.trace.clone(), fails: vec![f] });
+                                        out.found.push(L3Found { run_index: run, cfg: s.cfg.clone(), trace: s.trace.clone(), fails: fs });
                                     }
                                     if stop_on_first {
                                         stop.store(true, Ordering::Relaxed);
                                         break;
                                     }
                                 } else {
-                                    *out.notes.entry(format!("{}:{}", f.prop, f.oracle)).or_insert(0) += 1;
+                                    for f in &fs {
+                                        *out.notes.entry(format!("{}:{}", f.prop, f.oracle)).or_insert(0) += 1;
+                                    }
                                 }
                                 a = run + 1;
                             }
@@ -573,7 +580,7 @@ pub fn replay(def: &'static ThreadScenDef, cfg: &Cfg, trace: &Trace) -> (Vec<Fai
     for d in &s.trace.draws {
         h.add(*d);
     }
-    (fail.into_iter().collect(), h.get())
+    (fail.unwrap_or_default(), h.get())
 }
 
 /// Schedule minimisation: truncate the tail (fallback = lowest runnable id), zero the draws.
